@@ -33,9 +33,11 @@ def instances(tier, seed):
     add("ovl:CH->CH-moved:M2", pattern='CH->CH-moved', N=4, M=2, cost=10)
     add("ovl:CH->CF-ff-labels:M2", pattern='CH->CF-ff-labels', N=4, M=2, cost=10)
     # accepted overlaps on a structure that carries terms: the shared atom is removed once, the terms of all other atoms follow their atoms
-    add("ovl:CH->nothing:M2:structure-bond", pattern='CH->nothing', N=4, M=2, terms={'bond': 1}, s_rows={'bond': 2}, cost=40)
-    add("ovl:CH->nothing:M2:structure-bond:ign", pattern='CH->nothing', N=4, M=2, terms={'bond': 1}, s_rows={'bond': 2}, ignore=True, cost=40)
-    add("ovl:CH->C:M2:structure-bond", pattern='CH->C', N=4, M=2, terms={'bond': 1}, s_rows={'bond': 2}, cost=40)
+    add("ovl:CH->nothing:M2:structure-bond", pattern='CH->nothing', N=5, M=2, terms={'bond': 1}, s_rows={'bond': 2}, cost=400)
+    # (N=5: two matches sharing an atom remove three atoms; a bond between the two survivors needs a fifth atom)
+    n5 = 5 if tier == 'thorough' else 4
+    add("ovl:CH->nothing:M2:structure-bond:ign", pattern='CH->nothing', N=n5, M=2, terms={'bond': 1}, s_rows={'bond': 2}, ignore=True, cost=40)
+    add("ovl:CH->C:M2:structure-bond", pattern='CH->C', N=n5, M=2, terms={'bond': 1}, s_rows={'bond': 2}, cost=40)
     add("ovl:CCH->CN:M2", pattern='CCH->CN', N=5, M=2, cost=60)
     add("ovl:CHH->CHH:M2", pattern='CHH->CHH', N=4, M=2, cost=30)
     add("ovl:CHH->CHH:M2:replace_all", pattern='CHH->CHH', N=4, M=2, replace_all=True, cost=30)
